@@ -97,6 +97,28 @@ Proof.
         apply Hfr1; [exact H2|]. intro; subst; apply Hni; left; reflexivity.
 Qed.
 
+(** * where the writes go (C08 / C12): every device write of a data write addresses a cluster of the (extended) chain *)
+Lemma write_chunks_log cs : forall s data s', 0 <= bpc s -> write_chunks s cs data = Ok s' ->
+  exists l, s_log s' = l ++ s_log s /\
+    Forall (fun w => exists c, In c cs /\ fst w = cluster_addr s c /\ lenZ (snd w) <= bpc s) l.
+Proof.
+  induction cs as [|c r IH]; intros s data s' HB H.
+  - inversion H; subst. exists []. split; [reflexivity|constructor].
+  - cbn [write_chunks] in H. cbv zeta in H. destruct (write_at _ _ _) as [s1|] eqn:E; [|discriminate]. cbn [bind] in H.
+    apply write_at_ok in E. destruct E as [_ E].
+    assert (Hw : exists c0, In c0 (c :: r) /\ fst (cluster_addr s c, firstn (Z.to_nat (bpc s)) data) = cluster_addr s c0 /\
+                   lenZ (snd (cluster_addr s c, firstn (Z.to_nat (bpc s)) data)) <= bpc s).
+    { exists c. split; [left; reflexivity|]. split; [reflexivity|]. cbn [snd]. unfold lenZ. rewrite firstn_length. lia. }
+    destruct (_ <=? _)%nat.
+    + inversion H; subst s'. exists [(cluster_addr s c, firstn (Z.to_nat (bpc s)) data)]. subst s1. split; [reflexivity|]. constructor; [exact Hw|constructor].
+    + apply IH in H; [|subst s1; exact HB]. destruct H as (l & Hl & Hf).
+      exists (l ++ [(cluster_addr s c, firstn (Z.to_nat (bpc s)) data)]). split.
+      * rewrite Hl, E. cbn [s_log upd_dev]. rewrite <- app_assoc. reflexivity.
+      * apply Forall_app. split; [|constructor; [exact Hw|constructor]].
+        eapply Forall_impl; [|exact Hf]. cbv beta. intros w (c0 & Hc0 & Ha & Hb). exists c0. subst s1. split; [right; exact Hc0|]. split; assumption.
+Qed.
+
+
 (** [write_data_to_cluster] without erase (file data): the chain grows by exactly the clusters the allocator hands out
     (free ones), the data is what the chain now holds from its start, everything behind it and every other cluster
     keeps its contents *)
@@ -109,7 +131,9 @@ Theorem wdc_file_data s data c s' ch :
     s_fat s' = (if (length new =? 0)%nat then s_fat s else updZ (link_chain (s_fat s) new (Gen.END_OF_CLUSTER_MAX (ft s))) (last ch 0) (hd 0 new)) /\
     same_geo s s' /\
     read_chain s' (ch ++ new) = data ++ skipn (length data) (read_chain s (ch ++ new)) /\
-    (forall c', 2 <= c' -> ~ In c' (ch ++ new) -> rd s' (cluster_addr s c') (bpc s) = rd s (cluster_addr s c') (bpc s)).
+    (forall c', 2 <= c' -> ~ In c' (ch ++ new) -> rd s' (cluster_addr s c') (bpc s) = rd s (cluster_addr s c') (bpc s)) /\
+    (exists l, s_log s' = l ++ s_log s /\
+       Forall (fun w => exists x, In x (ch ++ new) /\ fst w = cluster_addr s x /\ lenZ (snd w) <= bpc s) l).
 Proof.
   intros Hd G Hv Hh Hch Hin Hvol Hw.
   destruct (vt_consts _ Hv) as (Hmin & Hfree & Hmax & _).
@@ -123,13 +147,14 @@ Proof.
     assert (Hnd : NoDup ch) by (eapply chain_go_nodup; exact Hch).
     destruct (write_chunks_gen ch s data s' Hd G Hnd Hin ltac:(unfold lenZ in *; nia) Hw) as ((d & l & Es') & Hd' & Hrc & Hfr).
     exists []. rewrite app_nil_r. split; [rewrite Es'; exact Hch|]. split; [exact Hin|]. split; [constructor|]. split; [constructor|].
-    split; [rewrite Es'; reflexivity|]. split; [rewrite Es'; repeat split|]. split; [exact Hrc|exact Hfr].
+    split; [rewrite Es'; reflexivity|]. split; [rewrite Es'; repeat split|]. split; [exact Hrc|]. split; [exact Hfr|].
+    apply (write_chunks_log ch s data); [lia|exact Hw].
   - cbn [negb] in Hw. destruct (allocate s (lenZ data - lenZ ch * bpc s) false) as [[new s2]|] eqn:Ea; [|discriminate]. cbn [bind] in Hw.
     destruct (allocate_sound _ _ _ _ _ Hh Ea) as [(Hn & Hs & Hf)|?]; [|lia].
     pose proof (allocate_fat _ _ _ _ _ Ea) as Hfat.
     destruct (allocate_dev _ _ _ _ _ Hd G Hh ltac:(lia) Ea) as [Hd2 Hg2]. destruct (same_geo_facts _ _ Hg2) as (Ea2 & Eb2 & Et2 & Gg2 & Ins2).
-    assert (Hdev2 : s_dev s2 = s_dev s /\ s_dsize s2 = s_dsize s).
-    { unfold allocate in Ea. rewrite Ero in Ea. destruct (alloc_scan _ _ _ _ _ _). destruct (negb _); [discriminate|]. inversion Ea; subst. split; reflexivity. }
+    assert (Hdev2 : s_dev s2 = s_dev s /\ s_dsize s2 = s_dsize s /\ s_log s2 = s_log s).
+    { unfold allocate in Ea. rewrite Ero in Ea. destruct (alloc_scan _ _ _ _ _ _). destruct (negb _); [discriminate|]. inversion Ea; subst. repeat split; reflexivity. }
     set (s1 := upd_fat s2 (updZ (s_fat s2) (last ch 0) (hd 0 new)) (s_hint s2)) in *.
     assert (Hbig : lenZ ch * bpc s < lenZ data).
     { destruct (Z_lt_dec (lenZ ch * bpc s) (lenZ data)) as [?|Hnl]; [assumption|]. pose proof (ceil_div_le (lenZ data) (bpc s) (lenZ ch) HB ltac:(lia)). lia. }
@@ -157,10 +182,13 @@ Proof.
     split; [rewrite Es'; unfold s1; cbn [s_fat upd_dev upd_fat]; rewrite Hfat; destruct new; [congruence|reflexivity]|].
     split; [rewrite Es'; destruct Hg1 as (A1 & A2 & A3 & A4); repeat split; assumption|].
     assert (Hrd1 : forall x, rd s1 (cluster_addr s x) (bpc s) = rd s (cluster_addr s x) (bpc s)).
-    { intros x. unfold rd, s1. cbn [s_dev s_dsize upd_fat]. destruct Hdev2 as [-> ->]. reflexivity. }
-    split.
+    { intros x. unfold rd, s1. cbn [s_dev s_dsize upd_fat]. destruct Hdev2 as (-> & -> & _). reflexivity. }
+    split; [|split].
     + rewrite Hrc. f_equal. f_equal. unfold read_chain. apply flat_map_ext. intros x. rewrite Ea1, Eb1. apply Hrd1.
     + intros c' H2 Hni. specialize (Hfr c' H2 Hni). rewrite Ea1, Eb1 in Hfr. rewrite Hfr. apply Hrd1.
+    + destruct (write_chunks_log _ _ _ _ ltac:(rewrite Eb1; lia) Hw) as (l0 & Hl0 & Hf0). exists l0. split.
+      * rewrite Hl0. unfold s1. cbn [s_log upd_fat]. destruct Hdev2 as (_ & _ & ->). reflexivity.
+      * eapply Forall_impl; [|exact Hf0]. cbv beta. intros w (x & Hx & Ha & Hb). exists x. rewrite Ea1 in Ha. rewrite Eb1 in Hb. auto.
 Qed.
 
 (** * writing at a cursor inside a file: Python's [data[pos:pos+len(b)] = b] on the bytes of the chain *)
@@ -210,7 +238,7 @@ Proof.
     unfold suf. rewrite skipn_length. lia. }
   assert (Hinsuf : Forall (inside s) suf).
   { apply Forall_forall. intros x Hx. rewrite Forall_forall in Hin. apply Hin. rewrite Hsplit. apply in_or_app. right. exact Hx. }
-  destruct (wdc_file_data s _ cpos s' suf Hd G Hv Hh Hchs Hinsuf Hvol Hw) as (new & Hc' & Hall & Hnew & Hsort & Hfat & Hgeo & Hrc & Hfr).
+  destruct (wdc_file_data s _ cpos s' suf Hd G Hv Hh Hchs Hinsuf Hvol Hw) as (new & Hc' & Hall & Hnew & Hsort & Hfat & Hgeo & Hrc & Hfr & Hlog).
   destruct (same_geo_facts _ _ Hgeo) as (Hga & Hgb & Hft & _ & _).
   exists new.
   assert (Hdis : forall x, In x new -> ~ In x ch).
@@ -298,4 +326,58 @@ Proof.
   intros H Hp. rewrite H. rewrite skipn_app, firstn_length, Nat.min_l by exact Hp.
   rewrite skipn_all2 by (rewrite firstn_length; lia). rewrite Nat.sub_diag. cbn [app skipn].
   rewrite firstn_app, Nat.sub_diag. cbn [firstn]. rewrite app_nil_r. apply firstn_all.
+Qed.
+
+
+(** every device write of a file-data write lies inside the data area of the volume, in a cluster of the file's chain
+    or in a cluster that was free *)
+Theorem data_write_confined s data c s' ch :
+  dev_ok (s_dev s) -> geom_ok s -> vt (ft s) -> 0 <= s_hint s ->
+  chain s c = (ch, true) -> Forall (inside s) ch -> vol_ok s ->
+  write_data_to_cluster s data c false = Ok s' ->
+  exists l, s_log s' = l ++ s_log s /\
+    Forall (fun w => first_data_sector (s_p s) * BPB_BytsPerSec (s_h s) <= fst w /\ fst w + lenZ (snd w) <= s_dsize s /\
+                     exists x, (In x ch \/ nthZ (s_fat s) x = 0) /\ fst w = cluster_addr s x) l.
+Proof.
+  intros Hd G Hv Hh Hch Hin Hvol Hw.
+  destruct (wdc_file_data s data c s' ch Hd G Hv Hh Hch Hin Hvol Hw) as (new & _ & Hall & Hnew & _ & _ & _ & _ & _ & (l & Hl & Hf)).
+  exists l. split; [exact Hl|]. eapply Forall_impl; [|exact Hf]. cbv beta. intros w (x & Hx & Ha & Hb).
+  rewrite Forall_forall in Hall. destruct (Hall x Hx) as [Hx2 Hfit]. rewrite Ha.
+  split; [rewrite cluster_addr_lin by exact G; destruct G as (G1 & G2 & G3 & G4 & _); nia|]. split; [lia|].
+  exists x. split; [|reflexivity]. apply in_app_or in Hx. destruct Hx as [Hx|Hx]; [left; exact Hx|right].
+  rewrite Forall_forall in Hnew. apply Hnew. exact Hx.
+Qed.
+
+(** * crash points of a data write (C12) *)
+(** applying any sub-sequence of logged writes (oldest first) to a device *)
+Fixpoint apply_some (d:dev) (l:list (Z * list Z)) (keep:list bool) : dev :=
+  match l, keep with
+  | w :: r, k :: kr => let d' := apply_some d r kr in if k then dwrite d' (fst w) (snd w) else d'
+  | _, _ => d
+  end.
+Theorem data_crash : forall s data c s' ch,
+  dev_ok (s_dev s) -> geom_ok s -> vt (ft s) -> 0 <= s_hint s ->
+  chain s c = (ch, true) -> Forall (inside s) ch -> vol_ok s ->
+  write_data_to_cluster s data c false = Ok s' ->
+  exists l, s_log s' = l ++ s_log s /\
+    forall keep y, 2 <= y -> ~ In y ch -> nthZ (s_fat s) y <> 0 -> inside s y ->
+      dread (apply_some (s_dev s) l keep) (s_dsize s) (cluster_addr s y) (bpc s) = rd s (cluster_addr s y) (bpc s).
+Proof.
+  intros s data c s' ch Hd G Hv Hh Hch Hin Hvol Hw.
+  destruct (wdc_file_data s data c s' ch Hd G Hv Hh Hch Hin Hvol Hw) as (new & _ & Hall & Hnew & _ & _ & _ & _ & _ & (l & Hl & Hf)).
+  exists l. split; [exact Hl|]. intros keep y Hy Hnin Hnz Hiy.
+  assert (Hgen : forall l0, Forall (fun w => exists x, In x (ch ++ new) /\ fst w = cluster_addr s x /\ lenZ (snd w) <= bpc s) l0 ->
+            forall keep0, dev_ok (apply_some (s_dev s) l0 keep0) /\
+            dread (apply_some (s_dev s) l0 keep0) (s_dsize s) (cluster_addr s y) (bpc s) = rd s (cluster_addr s y) (bpc s)).
+  { induction l0 as [|w r IH]; intros Hf0 keep0; [destruct keep0; split; try exact Hd; reflexivity|].
+    destruct keep0 as [|k kr]; [split; [exact Hd|reflexivity]|]. cbn [apply_some]. cbv zeta.
+    inversion Hf0 as [|? ? (x & Hx & Ha & Hb) Hr]; subst. destruct (IH Hr kr) as [Hdk Hrk].
+    destruct k; [|split; assumption].
+    assert (Hxy : x <> y).
+    { intro; subst x. apply in_app_or in Hx. destruct Hx as [Hx|Hx]; [contradiction|]. rewrite Forall_forall in Hnew. specialize (Hnew y Hx). lia. }
+    assert (Hx2 : 2 <= x) by (rewrite Forall_forall in Hall; apply Hall; exact Hx).
+    split; [apply dwrite_spec; [exact Hdk|rewrite Ha; apply cluster_addr_nonneg; assumption]|].
+    rewrite read_elsewhere; [exact Hrk|exact Hdk|rewrite Ha; apply cluster_addr_nonneg; assumption|apply cluster_addr_nonneg; assumption|].
+    rewrite Ha. destruct (cluster_addr_disjoint s x y G Hxy); lia. }
+  apply Hgen. exact Hf.
 Qed.
